@@ -517,7 +517,9 @@ Proof.
   unfold mbind, get, lift_o, ret, fail.
   destruct (idx_get (pa_idx pa1) (r, s)); [|exact H].
   destruct (getNode fx pa1 n) as [an| | | |]; try exact H.
-  destruct (getNode fx pa1 (if n_bd an =? NONE then n else n_bd an)) as [bn| | | |]; try exact H.
+  match goal with |- context [if ?c then gap_best ?a ?b ?c1 ?d ?e ?f ?g ?h ?i ?j else ?k] =>
+    destruct (if c then gap_best a b c1 d e f g h i j else k) as [bi| | | |] end; try exact H.
+  destruct (getNode fx pa1 bi) as [bn| | | |]; try exact H.
   destruct (viable pa1 bn); exact H.
 Qed.
 (* the head FindHead answers is a node of the array *)
@@ -528,7 +530,9 @@ Proof.
   unfold mbind, get, lift_o, ret, fail.
   destruct (idx_get (pa_idx pa0) (r, s)); [|discriminate].
   destruct (getNode fx pa0 n) as [an| | | |]; try discriminate.
-  destruct (getNode fx pa0 (if n_bd an =? NONE then n else n_bd an)) as [bn| | | |] eqn:E; try discriminate.
+  match goal with |- context [if ?c then gap_best ?a ?b ?c1 ?d ?e ?f ?g ?h ?i ?j else ?k] =>
+    destruct (if c then gap_best a b c1 d e f g h i j else k) as [bi| | | |] end; try discriminate.
+  destruct (getNode fx pa0 bi) as [bn| | | |] eqn:E; try discriminate.
   destruct (viable pa0 bn); [|discriminate]. intros H. inversion H. subst. eauto.
 Qed.
 
